@@ -32,12 +32,13 @@ LEVEL = 'proof'
 THEOREMS = [
     'CC.C06_unique', 'CC.C06_symm', 'CC.C06_ref_indep', 'CC.C06_same_node_zero',
     'CC.C06_across_ideal_vs_zero', 'CC.C06_port_equation', 'CC.C06_thevenin', 'CC.C06_norton',
-    'CC.C06_parallel', 'CC.C06_series', 'CC.C06_impl_early_correct', 'CC.C06_impl_eq_spec_partial',
-    'CC.C06_ideal_vs_open_counterexample', 'CC.C06_pruned_index_counterexample', 'CC.C06_impl_eq_spec_false',
+    'CC.C06_parallel', 'CC.C06_series', 'CC.C06_impl_early_correct', 'CC.C06_impl_eq_spec',
+    'CC.C06_floating_island_counterexample',
 ]
-OPEN_STATEMENTS = ['CC.C06_impl_eq_spec_statement (false: C06_impl_eq_spec_false)', 'CC.C06_exists_statement']
+OPEN_STATEMENTS = ['CC.C06_impl_complete_statement (false for floating groups of nodes: C06_floating_island_counterexample)',
+                   'CC.C06_exists_statement']
 ASSUMPTIONS = [
-    'numpy.linalg.inv / solve are parameters of the model (certificates checked exactly by the driver); binary64 agrees with field arithmetic within 1e-7 relative on instances with cond < 1e8',
+    'numpy.linalg.solve is a parameter of the model (certificates checked exactly by the driver); binary64 agrees with field arithmetic within 1e-7 relative on instances with cond < 1e8',
     'hand-written model CC/Model/Port.lean is tied to the code by the port_pre / port_z / elem_z / oc_voltage / sc_current / port_sweep correspondence only',
     'the per-frequency networks of Circuit/impedance.py are the implementation\'s own transform_circuit outputs (modelled under C02/C07)',
     'the executable Spec (op port_spec) uses an unverified rank-revealing elimination over exact Gaussian rationals',
@@ -54,17 +55,22 @@ def tag(e: BaseException) -> str:
 # --------------------------------------------------------------------------- implementation adapters
 
 class InvSpy:
-    """records the argument of every numpy.linalg.inv call"""
+    """records the matrix argument of every numpy.linalg.solve / numpy.linalg.inv call
+    (the repaired code solves the pruned MNA system; the pre-e030c44 code inverted the pruned
+    admittance matrix)"""
     def __enter__(self):
-        self.args = []
-        self.orig = np.linalg.inv
-        def wrap(a, *k, **kw):
-            self.args.append(np.array(a, dtype=complex, copy=True))
-            return self.orig(a, *k, **kw)
-        np.linalg.inv = wrap
+        self.args = []; self.rhs = []
+        self.orig_inv = np.linalg.inv; self.orig_solve = np.linalg.solve
+        def wrap_inv(a, *k, **kw):
+            self.args.append(np.array(a, dtype=complex, copy=True)); self.rhs.append(None)
+            return self.orig_inv(a, *k, **kw)
+        def wrap_solve(a, b, *k, **kw):
+            self.args.append(np.array(a, dtype=complex, copy=True)); self.rhs.append(np.array(b, dtype=complex, copy=True))
+            return self.orig_solve(a, b, *k, **kw)
+        np.linalg.inv = wrap_inv; np.linalg.solve = wrap_solve
         return self
     def __exit__(self, *a):
-        np.linalg.inv = self.orig
+        np.linalg.inv = self.orig_inv; np.linalg.solve = self.orig_solve
 
 def run_impl(f, *a, **k):
     """('ok', value) | ('err', tag); a non-finite value is reported as the error NonFinite"""
@@ -128,6 +134,7 @@ def port_facts(desc, n1, n2):
         for n in labels_of(desc):
             if n == ref: continue
             inc = [d for d in br if n in (d['n1'], d['n2']) and d['n1'] != d['n2']]
+            if any(elem_is_ideal_vs(d) for d in inc): continue
             ys = {}
             for d in inc:
                 o = d['n2'] if d['n1'] == n else d['n1']
@@ -143,7 +150,7 @@ def port_facts(desc, n1, n2):
             while comp[x] != x: x = comp[x]
             return x
         for d in br:
-            if d['n1'] != d['n2'] and not elem_is_ideal_vs(d) and elem_Y(d) != 0:
+            if d['n1'] != d['n2'] and (elem_is_ideal_vs(d) or elem_Y(d) != 0):     # ideal sources join their terminals
                 comp[find(d['n1'])] = find(d['n2'])
         groups = {}
         for n in labs: groups.setdefault(find(n), []).append(n)
@@ -191,6 +198,21 @@ def port_illcond(desc, n1, n2, spy):
     if n1 == n2: return False
     c, _ = fallback_cond(desc, n1, n2)
     return c is not None and not (c < 1e8)
+
+def has_vs_loop(desc):
+    """a loop made of ideal voltage sources / short circuits only (parallel ones included): the
+    currents in it are undetermined whatever the rest of the network is"""
+    comp = {}
+    def find(x):
+        comp.setdefault(x, x)
+        while comp[x] != x: x = comp[x]
+        return x
+    for d in desc['branches']:
+        if elem_is_ideal_vs(d):
+            a, b = find(d['n1']), find(d['n2'])
+            if a == b: return True
+            comp[a] = b
+    return False
 
 def has_self_loop(desc):
     return any(d['n1'] == d['n2'] for d in desc['branches'])
@@ -240,20 +262,24 @@ def check_port(ctx, out, desc, n1, n2, exact, op='open_circuit_impedance', remov
         # conditioning of the re-referenced nodal system, computed independently of the code path
         cond, zscale = fallback_cond(desc, n1, n2)
     illcond = cond is not None and not (cond < 1e8)
-    # ---- correspondence: matrix handed to inv
+    # ---- correspondence: pruned system handed to numpy.linalg.solve
     if drv is not None and removed is None and impl != ('err', 'FloatingGroundNode'):
         pre = drv.call('port_pre', net=gen_net.desc_to_json(desc), n1=n1, n2=n2)
-        if 'Y' in pre:
-            M = [[core.cfloat(x) for x in row] for row in pre['Y']]
+        bimpl = spy.rhs[-1] if spy.rhs else None
+        if 'A' in pre:
+            M = [[core.cfloat(x) for x in row] for row in pre['A']]
+            ev = [core.cfloat(x) for x in pre['e']]
             ok = Yimpl is not None and Yimpl.shape == (len(M), len(M[0]) if M else 0) and \
-                all(core.close(Yimpl[r][c], M[r][c], 0.0, 1e-12) for r in range(len(M)) for c in range(len(M[0])))
-            if Yimpl is not None and Yimpl.size == 0 and not M: ok = True
+                all(core.close(Yimpl[r][c], M[r][c], 0.0, 1e-12) for r in range(len(M)) for c in range(len(M[0]))) and \
+                bimpl is not None and list(bimpl) == ev
             out.traces_validated += 1
             if not ok:
-                out.disagree('port_pre', pretty, None if Yimpl is None else Yimpl.tolist(), pre)
+                out.disagree('port_pre', pretty, dict(A=None if Yimpl is None else Yimpl.tolist(), e=None if bimpl is None else list(bimpl)), pre)
         elif 'early' in pre:
             if Yimpl is not None:
-                out.disagree('port_pre', pretty, 'inv called', pre)
+                out.disagree('port_pre', pretty, 'solve called', pre)
+        elif Yimpl is not None:
+            out.disagree('port_pre', pretty, 'solve called', pre)
     # ---- correspondence: value / exception kind
     if model is not None:
         out.traces_validated += 1
@@ -278,6 +304,8 @@ def check_port(ctx, out, desc, n1, n2, exact, op='open_circuit_impedance', remov
         return impl
     if n1 not in labels_of(desc) and n1 != desc['zero']: return impl
     if n2 not in labels_of(desc) and n2 != desc['zero']: return impl
+    if has_vs_loop(desc):
+        out.count('ideal_source_loop_outside_domain'); return impl    # branch currents undetermined: not a network of C01
     spec = drv.call('port_spec', net=gen_net.desc_to_json(desc), n1=n1, n2=n2)
     if not spec['defined']:
         out.count('port_undefined'); return impl
@@ -288,6 +316,8 @@ def check_port(ctx, out, desc, n1, n2, exact, op='open_circuit_impedance', remov
     if facts['zero_row_node']: out.count('with_zero_row_node')
     if facts['floating_island']: out.count('with_floating_island')
     if not spec['wellposed']: out.count('port_defined_network_not_wellposed')
+    if impl == ('err', 'LinAlgError') and illcond and model is not None and model[0] == 'ok':
+        out.skip('ill_conditioned'); return impl      # singular only in binary64: the exact system is regular
     if impl[0] == 'err':
         out.spec_fail(dict(canon, symptom='raises', exc=impl[1]),
                       f'{op}: port impedance is {z} by unit-current injection, implementation raises {impl[1]}',
@@ -386,6 +416,7 @@ def check_equivalent(ctx, out, desc, n1, n2, exact, rng):
         out.disagree('open_circuit_voltage', pretty, voc, m_voc)
     with InvSpy() as spy:
         isc = run_impl(bpa.short_circuit_current, net, n1, n2)
+    spy.args = spy.args[:1]      # the port system is solved first, the bias point afterwards
     illz = port_illcond(desc, n1, n2, spy)
     m_isc = model_res(drv.call('sc_current', net=jnet, n1=n1, n2=n2))
     # Isc = V/Z: the float error of V (relative to the potentials' scale) is amplified by 1/|Z|
@@ -393,6 +424,7 @@ def check_equivalent(ctx, out, desc, n1, n2, exact, rng):
     iscale = scale / abs(m_z[1]) if m_z[0] == 'ok' and abs(m_z[1]) > 0 else scale
     def agree_isc(a, b):
         if a[0] == 'ok' and b[0] == 'ok': return illc or core.close(a[1], b[1], iscale, 1e-7)
+        if b == ('err', 'NonFinite') and a[0] == 'ok': return True     # Z = 0 exactly, ~1e-17 in binary64: V/Z is rounding noise
         return agree(a, b)
     if wp['wellposed'] and not illz and not agree_isc(isc, m_isc):
         if not (m_isc == ('err', 'LinAlgError') and isc[0] == 'ok' and abs(isc[1]) < 1e-9 * scale) and \
@@ -502,8 +534,12 @@ def check_equivalent_records(ctx, out, es, desc, n1, n2):
         net = gen_net.to_impl(desc)
     except Exception:
         return
+    jn = gen_net.desc_to_json(desc)
+    if not drv.call('wellposed', net=jn)['wellposed']:
+        out.count('records:network_illposed'); return     # exactly singular bias point: binary64 need not notice
+    if port_illcond(desc, n1, n2, None): out.skip('ill_conditioned'); return
     out.evaluations += 1
-    m = drv.call('equivalents', net=gen_net.desc_to_json(desc), n1=n1, n2=n2)
+    m = drv.call('equivalents', net=jn, n1=n1, n2=n2)
     def rec(cls, fields):
         try:
             o = cls(net, n1, n2)
@@ -517,7 +553,7 @@ def check_equivalent_records(ctx, out, es, desc, n1, n2):
         mm = m[name]
         out.traces_validated += 1
         if 'err' in mm:
-            if impl != ('err', mm['err']) and not (mm['err'] == 'LinAlgError'):
+            if impl != ('err', mm['err']) and mm['err'] not in ('LinAlgError', 'NonFinite'):
                 out.disagree('equivalent_sources.' + name, gen_net.pretty(desc), impl, mm)
         elif impl[0] == 'err':
             out.disagree('equivalent_sources.' + name, gen_net.pretty(desc), impl, mm)
@@ -642,7 +678,7 @@ def check_circuit(ctx, out, comps, n1, n2, ws, el=None):
             nd0 = dict(nd0, branches=[x for x in nd0['branches'] if x['id'] != el])
             a1, a2 = b0[0]['n1'], b0[0]['n2']
             ok0 = nd0['zero'] in labels_of(nd0)
-    if ok0 and not has_self_loop(nd0):
+    if ok0 and not has_self_loop(nd0) and not has_vs_loop(nd0):
         spec0 = drv.call('port_spec', net=raw_json(nd0), n1=a1, n2=a2)
         if spec0['defined']:
             f0 = port_facts(nd0, a1, a2)
@@ -668,7 +704,7 @@ def check_circuit(ctx, out, comps, n1, n2, ws, el=None):
             if nd['zero'] not in labels_of(nd): continue
         else:
             a1, a2 = n1, n2
-        if has_self_loop(nd): continue
+        if has_self_loop(nd) or has_vs_loop(nd): continue
         spec = drv.call('port_spec', net=raw_json(nd), n1=a1, n2=a2)
         if not spec['defined']:
             out.count('port_undefined'); continue
